@@ -1,8 +1,9 @@
 #!/usr/bin/env python3
-"""Regenerates MANIFEST.json from checks.json (+ not_applicable.json). Run after editing checks.json."""
+"""Regenerates MANIFEST.json from checks.d/*.json (+ not_applicable.json). Run after editing checks.json."""
 import json, os
 V = os.path.dirname(os.path.abspath(__file__))
-reg = json.load(open(os.path.join(V, "checks.json")))
+import glob
+reg = {os.path.basename(f)[:-5]: json.load(open(f)) for f in sorted(glob.glob(os.path.join(V, "checks.d", "*.json")))}
 props = [json.loads(l)["id"] for l in open(os.path.join(V, "properties.jsonl"))]
 na_path = os.path.join(V, "not_applicable.json")
 na = json.load(open(na_path)) if os.path.exists(na_path) else {}
